@@ -23,7 +23,7 @@ struct day {
     constexpr explicit day(unsigned d) noexcept
         : _count{static_cast<etl::uint8_t>(d)}
     {
-        TETL_PRECONDITION(d < etl::numeric_limits<etl::uint8_t>::max());
+        TETL_PRECONDITION(d <= etl::numeric_limits<etl::uint8_t>::max());
     }
 
     constexpr auto operator++() noexcept -> day& { return *this += days{1}; }
